@@ -111,6 +111,22 @@ def run(chk):
         elif not i.startswith("ok "):
             chk.violate({"kind": "property", "case": lib.show_case(("debload", [b"<dpkg-deb package, %d bytes>" % len(b)])), "impl": i[:300],
                          "explanation": "a package built by dpkg-deb was not loaded"})
+    # the same packages through LoadFile (a real file; the lazily read payload stream must outlive the loader), and
+    # packages whose payload is far larger than any read-ahead buffer (64 KiB of incompressible data)
+    big = []
+    for cenc, denc in (("", ""), (".gz", ".gz"), (".xz", ""), (".gz", ".zst"), ("", ".bz2")):
+        dfiles = [(b"./", b""), (b"./usr/bin/hello", b"#!/bin/sh\n"), (b"./noise.bin", bytes(rng.randrange(256) for _ in range(65536))), (b"./after", b"tail\n")]
+        big.append(debpkg.build(chk, rng, cenc, denc, data_files=dfiles))
+    fcases = [("debloadfile", [b]) for b in bufs[::2]] + [("debloadfile", [b]) for b, _ in big]
+    fref = chk.run_impl([("debload", c[1]) for c in fcases])
+    fi = chk.run_impl(fcases)
+    chk.record("load-file", fcases, fi)
+    for c, a, r in zip(fcases, fi, fref):
+        if a != r:
+            chk.violate({"kind": "property", "case": lib.show_case(("debloadfile", [b"<%d bytes>" % len(c[1][0])])), "load": r[:600], "load_file": a[:600],
+                         "explanation": "LoadFile does not expose the same control data, member index and payload listing as Load on the same bytes"})
+    for (b, info), r in zip(big, fref[len(fcases) - len(big):]):
+        check_loaded(chk, ("debload", [b]), r, info)
     # rejections: wrong format version, missing members
     bad = []
     base, info = debpkg.build(chk, rng, ".gz", ".xz")
@@ -199,6 +215,25 @@ def hostile_debs(chk):
             chk.violate({"kind": "property", "case": lib.show_case(c), "impl": a, "explanation": "loading a corrupted .deb did not finish normally"})
         elif a != b:
             chk.violate({"kind": "property", "case": lib.show_case(c), "first": a[:300], "again": b[:300], "explanation": "loading the same bytes twice gives different outcomes"})
+    # members that share the control. / data. prefix without being tarballs (control.sig, data.tar.gz.bak, ...): which
+    # member the loader meets first depends on Go's map order, so each package is loaded many times - the outcome
+    # must be the same every time (that such a package must be refused is C16's business, checked there)
+    dec = []
+    for cenc, denc in ((".gz", ".gz"), ("", ".xz")):
+        base, info = debpkg.build(chk, rng, cenc, denc)
+        ms = info["ms"]
+        for extra in (b"control.sig", b"control.", b"control.txt", b"data.tar.gz.bak", b"data.", b"data.list"):
+            for pos in (1, 3):
+                m2 = list(ms); m2.insert(pos, debpkg.member(extra, b"not a tarball\n"))
+                dec.append(argen.render(m2))
+    dcases = [("debload", [b]) for b in dec]
+    runs = [chk.run_impl(dcases) for _ in range(chk.n(8, 40))]
+    chk.record("prefix-sharing-non-tar-members", dcases, runs[0], lambda c, r: True)
+    for k, c in enumerate(dcases):
+        outs = sorted({r[k][:200] for r in runs})
+        if len(outs) != 1:
+            chk.violate({"kind": "property", "case": lib.show_case(("debload", [b"<%d bytes>" % len(c[1][0])])), "outcomes": outs,
+                         "explanation": "loading the same bytes repeatedly gives different outcomes (a control.* / data.* member that is not a tarball)"})
 
 
 def replay(chk, d):
